@@ -1,6 +1,7 @@
 (* C10 — property theorems (statements only; proofs are in Proofs.v). *)
 From Coq Require Import List NArith Bool Lia.
-From LV Require Import Wire.Model Wire.Proofs Wire.Loose.
+From LV Require Import Wire.Model Wire.Proofs Wire.Loose Wire.MsgModel Wire.MsgProofs.
+From LV Require Import Gen.GenWire.
 Import ListNotations.
 Local Open Scope N_scope.
 
@@ -141,4 +142,72 @@ Proof. exact message_roundtrip. Qed.
 (* every hand-written lnwire layout satisfies the side conditions *)
 Theorem C10_wire_layouts_ok :
   forallb (fun e => lay_ok (snd e) && (fst e <? 65536)) wire_layouts = true.
+Proof. vm_compute. reflexivity. Qed.
+
+(* ------------------------------------------------------------------ *)
+(* messages of the shape "fixed fields ++ TLV extension" (Wire/MsgModel.v):
+   M = (fixed layout, optional flag-conditional fields, known records, Repack|Merge) *)
+
+(* every complete valid VALUE round-trips: Decode (Encode v) = v *)
+Theorem C10_tlvmsg_roundtrip : forall on_curve M v,
+  tm_ok M = true -> valid_tv on_curve M v = true -> complete_tv M v = true ->
+  exists e, encode_tm M v = Some e /\ decode_tm on_curve M e = Some v.
+Proof. intros oc M v Hok. apply roundtrip. exact Hok. Qed.
+
+(* whatever Decode accepts is a valid value, re-encodes, and ONE re-encode
+   reaches a canonical fixpoint: the re-encoding e decodes to v' (v without
+   the records Encode does not write) and v' encodes to e again *)
+Theorem C10_tlvmsg_fixpoint : forall on_curve M b vs cs rs,
+  tm_ok M = true -> wf_bytes b -> decode_tm on_curve M b = Some (vs, cs, rs) ->
+  valid_tv on_curve M (vs, cs, rs) = true /\
+  exists e, encode_tm M (vs, cs, rs) = Some e /\
+            decode_tm on_curve M e = Some (vs, cs, out_recs M rs) /\
+            encode_tm M (vs, cs, out_recs M rs) = Some e.
+Proof.
+  intros oc M b vs cs rs Hok Hw Hd. split; [apply (decode_valid oc M Hok b); assumption|].
+  apply (tlvmsg_fixpoint oc M Hok b); assumption.
+Qed.
+
+(* what is lost by decode -> encode -> decode: the fixed and conditional fields
+   never; a record r of the extension survives iff the message merges
+   (MergeAndEncode) or r is one of the message's known records.  So exactly the
+   unknown records are lost, and only by the Repack messages (finding C10-F1). *)
+Theorem C10_tlvmsg_loss_exactly_unknown : forall on_curve M b vs cs rs,
+  tm_ok M = true -> wf_bytes b -> decode_tm on_curve M b = Some (vs, cs, rs) ->
+  exists e rs', encode_tm M (vs, cs, rs) = Some e /\
+                decode_tm on_curve M e = Some (vs, cs, rs') /\
+                (forall r, In r rs' <-> In r rs /\ (tm_mode M = Merge \/
+                                                    rec_known (tm_known M) r = true)) /\
+                (tm_mode M = Merge -> rs' = rs).
+Proof.
+  intros oc M b vs cs rs Hok Hw Hd.
+  destruct (tlvmsg_fixpoint oc M Hok b vs cs rs Hw Hd) as (e & He & Hde & _).
+  exists e, (out_recs M rs). split; [assumption|]. split; [assumption|]. split.
+  - intros r. apply out_recs_in.
+  - intros Hm. unfold out_recs. rewrite Hm. reflexivity.
+Qed.
+
+(* T1: the descriptions generated from lnwire's Encode/Decode methods satisfy
+   the side conditions of the theorems above (computed) *)
+Theorem C10_gen_tlvmsgs_ok :
+  forallb (fun e => tm_ok (snd e) && (fst e <? 65536)) gen_tlvmsgs = true.
+Proof. vm_compute. reflexivity. Qed.
+
+Theorem C10_gen_layouts_ok :
+  forallb (fun e => lay_ok (snd e) && (fst e <? 65536)) gen_layouts = true.
+Proof. vm_compute. reflexivity. Qed.
+
+Definition layout_eqb (a b : layout) : bool :=
+  if list_eq_dec (fun x y : fkind =>
+       ltac:(decide equality; try apply N.eq_dec; apply Nat.eq_dec)) a b then true else false.
+
+(* the generated layouts coincide with the hand-written ones of Model.v for
+   every type both describe (all but the custom range, which the translator
+   does not express) *)
+Theorem C10_gen_matches_handwritten :
+  forallb (fun e => (fst e =? 32768) ||
+                    match lookup_layout gen_layouts (fst e) with
+                    | Some L => layout_eqb L (snd e)
+                    | None => false
+                    end) wire_layouts = true.
 Proof. vm_compute. reflexivity. Qed.
